@@ -72,15 +72,17 @@ Example resume_alias_now_in_step :
     map rec_code (out s) = [(0, 0, 0); (0, 1, 1); (0, 2, 2); (1, 2, 2); (1, 1, 1); (1, 0, 0)].
 Proof. split; [vm_compute; reflexivity|]. eexists; eexists. vm_compute. auto. Qed.
 
-(* R2: a PLT function tail-calls a traced function which throws and catches; the full rehook writes the
-   trampoline of the OLDEST entry of the chain, so the return runs plthook_exit on an mcount entry
-   ("invalid dynsym idx": libmcount ends the process) *)
+(* regression witness of the defect repaired by /repo fix C01-9 (was: R2): a PLT function tail-calls a traced
+   function which throws and catches; mcount_rstack_rehook now walks oldest-first, so the shared slot ends up
+   with the trampoline of the newest entry and the chain returns through both exit hooks *)
 Definition witness_mixed_chain : list op :=
-  [Call 0 100 11 103; Plt KNone 100 90 12 0; TCall 1 90 92; Throw; Catch 89; Ret 90].
-Lemma rehook_mixed_chain_refuted :
-  (exists s obs, lrun init (firstn 5 witness_mixed_chain) = Some (s, obs)) /\
-  lrun init witness_mixed_chain = None.
-Proof. split; [eexists; eexists; vm_compute; reflexivity|vm_compute; reflexivity]. Qed.
+  [Call 0 100 11 103; Plt KNone 100 90 12 0; TCall 1 90 92; Throw; Catch 89; Ret 90; Ret 100].
+Example mixed_chain_now_in_step :
+  legal_prog witness_mixed_chain = true /\
+  exists s obs, lrun init witness_mixed_chain = Some (s, obs) /\
+    map (fun o => (o_target o, o_pops o)) obs = [(0,0); (0,0); (0,0); (0,0); (0,0); (12, 2); (11, 1)] /\
+    ok_run witness_mixed_chain obs = true.
+Proof. split; [vm_compute; reflexivity|]. eexists; eexists. vm_compute. auto. Qed.
 
 (* R3: -mfentry style frame address (the word below the slot is no frame pointer): a traced function
    entered from a cleanup pad at the slot of the frame just unwound keeps that dead frame's entry as a
